@@ -10,6 +10,9 @@ tie        translator harness/translate/specs.py (header names and all field spe
              geo_write    real mulgrid.write(file) bytes  vs  model write            (byte for byte)
              geo_read     real mulgrid(file) public state  vs  model read           (canonical dump)
              geo_malformed  damaged files: exception class or dump
+             geo_canon    (model only) read(write g) evaluated by the driver = canonGeo g whenever WF g: the statement of
+                          geo_roundtrip tested on every generated geometry; WF / LayerCentresKept / StableSurfaces are evaluated
+                          on every case and counted in the evidence (hypotheses_met)
 oracle     the property itself on the real code, without the model: write -> read -> compare with the
            two-decimal values computed with `decimal` -> write again -> compare bytes; FEET: the file text
            is parsed by columns and compared with metres/0.3048
@@ -897,7 +900,7 @@ def _run(ctx, only_oracle=False, n=None, seed_shift=0):
     hyp_lck = res.hyp.setdefault('LayerCentresKept g', [0, 0])
     hyp_st = res.hyp.setdefault('StableSurfaces g (hypothesis of names_lists_preserved)', [0, 0])
     hyp_sz = res.hyp.setdefault('SizesStable g (proved from WF: sizesStable_of_fits; evaluated as a cross-check)', [0, 0])
-    if n is None: n = ctx.n(70, 700)
+    if n is None: n = ctx.n(70, 450)
     rcs = recipes(ctx, n) if not seed_shift else [gen_recipe(ctx.rng('search%d' % seed_shift), True, i) for i in range(n)]
     rng_mal = ctx.rng('malformed')
     reqs, meta = [], []
